@@ -334,7 +334,7 @@ type drvReplay struct {
 
 func Run(r *report.Run) {
 	defer clih.Cleanup()
-	r.Rule = "real CLI with a SQLite file as dev database: commands {migrate diff, migrate validate, migrate lint --latest N, schema apply --to file.sql / file.hcl, schema diff file.sql file.sql, schema inspect file.sql} x dev state {empty, table with rows, view only, FTS virtual table only, R*Tree virtual table only; thorough: table+trigger} x migration directory / schema file shapes (tables, indexes, views and triggers) with, at every position (and nowhere), a statement the engine rejects or one it accepts but atlas cannot inspect (the replay succeeds, reading the state back fails); dev database and directory read before/after by our own connection / file reads; plus a driver-level slice for MySQL, PostgreSQL and CockroachDB (the PostgreSQL driver on a connection that reports a CockroachDB version; its schema public cannot be dropped): the real drivers opened on a mocked connection, their Inspector / PlanApplier replaced by an in-memory catalogue; every catalogue over two schemas (absent / empty / holding a table) x connection binding x replay effect {table in the first schema, table in the second, new schema; MySQL bound connections: the replay ends with USE <second schema>}: the real Snapshot must refuse whenever the connection's scope holds a table and the real restore function (real differ, real planner; the planned statements are run against the catalogue as a server would run them: foreign keys and unreported dependent objects block DROP TABLE without CASCADE) must hand the catalogue back as it was, also after a replay that created tables with cyclic foreign keys; non-trivial = every case; distinct = the case tuple"
+	r.Rule = "real CLI with a SQLite file as dev database: commands {migrate diff, migrate validate, migrate lint --latest N, schema apply --to file.sql / file.hcl, schema diff file.sql file.sql, schema inspect file.sql} x dev state {empty, table with rows, view only, FTS virtual table only, R*Tree virtual table only; thorough: table+trigger} x migration directory / schema file shapes (tables, indexes, views and triggers) with, at every position (and nowhere), a statement the engine rejects or one it accepts but atlas cannot inspect (the replay succeeds, reading the state back fails); dev database and directory read before/after by our own connection / file reads; plus a driver-level slice for MySQL, PostgreSQL and CockroachDB (the PostgreSQL driver on a connection that reports a CockroachDB version; its schema public cannot be dropped): the real drivers opened on a mocked connection, their Inspector / PlanApplier replaced by an in-memory catalogue; every catalogue over two schemas (absent / empty / holding a table) x connection binding x replay effect {table in the first schema, table in the second, new schema; MySQL bound connections: the replay ends with USE <second schema>, the replay changes the collation of the bound database}: the real Snapshot must refuse whenever the connection's scope holds a table and the real restore function (real differ, real planner; the planned statements are run against the catalogue as a server would run them: foreign keys and unreported dependent objects block DROP TABLE without CASCADE) must hand the catalogue back as it was, also after a replay that created tables with cyclic foreign keys; non-trivial = every case; distinct = the case tuple"
 	r.Assumptions = []string{"`migrate diff` may add one file and rewrite atlas.sum when it succeeds; nothing else may change in the directory"}
 	cs := cases(r.Tier)
 	res := make([][]string, len(cs))
